@@ -32,7 +32,7 @@ def event_for(cls, obj, origin):
     if out != 'ok':
         return None            # no wire form (C01's trivial case)
     wire = bytes(wire)
-    if len(wire) > (6000 if not kind.startswith('ssl2') else 40000):
+    if len(wire) > (6000 if not kind.startswith(('ssl2', 'record')) else 40000):
         return None
     out2, wire2, _ = call(lambda o: o.compose(), obj)     # composing is repeatable: the second result is the same bytes
     again_same = out2 == 'ok' and bytes(wire2) == wire
@@ -202,6 +202,16 @@ def big_random(rep, thorough):
         try:
             out.append(TlsHandshakeServerHello(protocol_version=TlsProtocolVersion(list(TlsVersion)[i % len(TlsVersion)]),
                                                cipher_suite=suites[i], compression_method=TlsCompressionMethod.NULL))
+        except Exception:  # pylint: disable=broad-except
+            pass
+    # records of every length the record layer has to carry: a protected record (RFC 5246 6.2.3: TLSCiphertext, RFC 8446 5.2) is
+    # up to 2^14 + 2048 bytes long, more than the 2^14 of a plaintext fragment
+    from cryptoparser.tls.subprotocol import TlsContentType
+    for n, ct in ((0, TlsContentType.APPLICATION_DATA), (1, TlsContentType.HANDSHAKE), (16383, TlsContentType.APPLICATION_DATA),
+                  (16384, TlsContentType.HANDSHAKE), (16385, TlsContentType.APPLICATION_DATA), (16384 + 256, TlsContentType.APPLICATION_DATA),
+                  (16384 + 2048, TlsContentType.APPLICATION_DATA), (16384 + 2048, TlsContentType.HANDSHAKE)):
+        try:
+            out.append(TlsRecord(fragment=bytes((7 * i + n) % 256 for i in range(n)), content_type=ct))
         except Exception:  # pylint: disable=broad-except
             pass
     for i in range(10 if thorough else 4):
